@@ -59,10 +59,14 @@ def _matches(pattern, scn):
     return True
 
 
+_CURRENT = []
+
+
 class Check(object):
     """one run of one property's check"""
 
     def __init__(self, pid, level):
+        _CURRENT.append(self)
         self.pid = pid
         self.level = level
         self.t0 = time.time()
@@ -210,11 +214,16 @@ def main_wrapper(fn):
     warnings.simplefilter('ignore')
     try:
         rc = fn()
-    except Machinery as exc:
-        print('MACHINERY FAILURE: %s' % exc)
-        sys.exit(2)
-    except Exception:
-        traceback.print_exc()
-        print('MACHINERY FAILURE (unexpected exception)')
+    except Exception as exc:
+        if _CURRENT and _CURRENT[-1].violations:
+            # violations were already established and reported; a later stage choking on the same broken
+            # behaviour must not turn the verdict into "machinery failure"
+            print('NOTE a later stage failed after violations had been found: %s' % (str(exc).splitlines() or [''])[0][:200])
+            sys.exit(_CURRENT[-1].finish())
+        if isinstance(exc, Machinery):
+            print('MACHINERY FAILURE: %s' % exc)
+        else:
+            traceback.print_exc()
+            print('MACHINERY FAILURE (unexpected exception)')
         sys.exit(2)
     sys.exit(rc)
